@@ -103,9 +103,12 @@ def gen_abstract(rng, nstmt=None, dup_outputs=False, includes=False, scoping=Fal
                 stmts.append(("default", [rng.choice(b)[1][0]]))
         elif includes:
             fname = "inc%d.ninja" % len(files)
-            sub, _ = gen_abstract(rng, nstmt=rng.randint(1, 3))
-            # the included file only binds variables and declares builds with fresh rule names
-            sub = [s for s in sub if s[0] in ("bind",)] or [("bind", "v0", [("lit", "sub")])]
+            sub, _ = gen_abstract(rng, nstmt=rng.randint(1, 5))
+            # the included file binds variables and (two times out of three) also declares rules, pools and steps that read the
+            # scope in force at the include line; the statements after the line may rebind what the child read
+            if rng.random() < 0.33:
+                sub = [s for s in sub if s[0] in ("bind",)]
+            sub = sub or [("bind", "v0", [("lit", "sub")])]
             files[fname] = sub
             stmts.append((rng.choice(["include", "subninja"]), fname))
     return stmts, files
